@@ -87,7 +87,12 @@ func (f *FieldUpdater) Merge(dst, src proto.Message) {
 	proto.Merge(dst, src)
 
 	// if a field mentioned by the mask is nil, we should clear it
-	pruneEmpty(dst, src, nestedMask)
+	pruneMask := nestedMask
+	if f.writableFields != nil {
+		// only the writable parts of the mentioned fields may be cleared
+		pruneMask = fmutils.NestedMaskFromPaths(f.fullMask().GetPaths())
+	}
+	pruneEmpty(dst, src, pruneMask)
 
 	if f.resetMask != nil {
 		fmutils.Prune(dst, f.resetMask.Paths)
